@@ -275,7 +275,7 @@ pub fn run(rep: &Report) {
     }
     rep.add_extra("operator_type_pairs_covered", json!(tt.len()));
     rep.add_extra("operator_type_pair_counts", json!(tt));
-    let n_random = rep.tier.pick(2_000_000u64, 40_000_000);
+    let n_random = rep.tier.pick(2_000_000u64, 120_000_000);
     common::random_search(rep, "random", 30, n_random, &arb_pair, &|(op, a, b): &(usize, RV, RV), l| {
         l.sample(2, || json!(format!("{} {} {}", a, op_symbol(*op), b)));
         check_op(*op, a, b, None, true, l)
